@@ -767,6 +767,11 @@ class PSub(Config):
 class PTop(Config):
     __xpmid__ = "{P.name}.probe.ptop"
     subs: Param[List[PSub]]
+
+
+class PDir(Config):
+    __xpmid__ = "{P.name}.probe.pdir"
+    sub: Param[PSub]
 '''
     _, M = P.module(body)
     impl = {}
@@ -797,6 +802,15 @@ class PTop(Config):
         impl["deepValidate"] = False
     except ValueError:
         impl["deepValidate"] = True
+    o = M.PDir(sub=M.PSub())
+    res = []
+    for _ in range(2):
+        try:
+            o.__xpm__.validate()
+            res.append("ok")
+        except ValueError:
+            res.append("missing")
+    impl["resetOnFail"] = res == ["missing", "missing"]
     P.impl = impl
     ctx.extra_cov["source_variant"] = impl
     return impl
@@ -826,6 +840,8 @@ def gen_set_cases(ctx, rng, ntypes):
         inner = t["t"] if t["k"] == "opt" else t
         if t["k"] not in ("opt",) and "cfg" not in ty_kinds(t, []) and rng.random() < 0.15:
             arg["default"] = vg.conforming(inner)
+            if arg["default"]["k"] == "none":  # `= None` declares no default
+                arg["default"] = None
         vals = []
         for _ in range(rng.choice([2, 3])):
             vals.append(("conforming", vg.conforming(t), 0))
@@ -948,25 +964,47 @@ def one_set_case(ctx, cls, arg, kind, vd, depth, W0, impl, lines, impls, metas, 
     ctx.count("value_kind", vd["k"])
 
 
+_QUEUE = []  # (kind, line, impl, meta): every model question of a run goes to the driver in one call
+
+
 def compare(ctx, lines, impls, metas):
+    _QUEUE.extend(("set", l, i, m) for l, i, m in zip(lines, impls, metas))
+
+
+def flush(ctx):
+    """one driver run for everything queued, then the comparisons"""
+    q = list(_QUEUE)
+    del _QUEUE[:]
+    if not q:
+        return
     try:
-        outs = common.run_driver("C15", lines)
+        outs = common.run_driver("C15", [l for _, l, _, _ in q])
     except Exception as e:
         ctx.disagree({"driver": "C15"}, None, None, f"model driver failed: {e}")
         return
-    for line, m, i, meta in zip(lines, outs, impls, metas):
-        mm = {k: m[k] for k in ("r", "v", "e") if k in m}
-        if mm != i:
-            ctx.disagree(line, mm, i, "set: model and implementation differ")
-            continue
-        if m.get("conf_in") != meta["member"]:
-            ctx.disagree(line, m.get("conf_in"), meta["member"], "conforms (model) differs from isinstance-membership (python)")
-        if m["r"] == "ok":
-            if m.get("eq") != meta["eq"]:
-                ctx.disagree(line, m.get("eq"), meta["eq"], "pyEq (model) differs from == (python)")
-            if m.get("conf_out") != meta["member_out"]:
-                ctx.disagree(line, m.get("conf_out"), meta["member_out"], "conforms of the stored value differs")
+    for (kind, line, i, meta), m in zip(q, outs):
         ctx.traces_validated += 1
+        if kind == "set":
+            compare_set(ctx, line, m, i, meta)
+        elif kind == "decl":
+            if m != i:
+                ctx.disagree(line, m, i, "declarable: model and implementation differ")
+        else:
+            compare_graph(ctx, line, m, i, meta)
+
+
+def compare_set(ctx, line, m, i, meta):
+    mm = {k: m[k] for k in ("r", "v", "e") if k in m}
+    if mm != i:
+        ctx.disagree(line, mm, i, "set: model and implementation differ")
+        return
+    if m.get("conf_in") != meta["member"]:
+        ctx.disagree(line, m.get("conf_in"), meta["member"], "conforms (model) differs from isinstance-membership (python)")
+    if m["r"] == "ok":
+        if m.get("eq") != meta["eq"]:
+            ctx.disagree(line, m.get("eq"), meta["eq"], "pyEq (model) differs from == (python)")
+        if m.get("conf_out") != meta["member_out"]:
+            ctx.disagree(line, m.get("conf_out"), meta["member_out"], "conforms of the stored value differs")
 
 
 # ---------------------------------------------------------------------------
@@ -1002,15 +1040,7 @@ def run_decl_cases(ctx, rng, n):
         impls.append({"ok": ok})
         ctx.case({"op": "decl", "ty": t}, ty_depth(t) >= 1)
         ctx.count("decl_outcome", ok)
-    try:
-        outs = common.run_driver("C15", lines)
-    except Exception as e:
-        ctx.disagree({"driver": "C15"}, None, None, f"model driver failed: {e}")
-        return
-    for line, m, i in zip(lines, outs, impls):
-        if m != i:
-            ctx.disagree(line, m, i, "declarable: model and implementation differ")
-        ctx.traces_validated += 1
+    _QUEUE.extend(("decl", l, i, None) for l, i in zip(lines, impls))
 
 
 # ---------------------------------------------------------------------------
@@ -1037,7 +1067,7 @@ def gen_lib(rng):
                 r = 0.35 + 0.57 * r
             if not cfgs or r < 0.35:
                 ty = gen_inner(rng, rng.choice([0, 0, 1]), [0], allow_union=False)
-                if "cfg" in ty_kinds(ty, []):
+                if {"cfg", "any"} & set(ty_kinds(ty, [])):
                     ty = T(rng.choice(SCALARS))
             elif r < 0.6:
                 ty = T("cfg", c=rng.choice(cfgs))
@@ -1323,7 +1353,11 @@ def make_lib(ctx, rng, classes=None, defaults=None):
     return classes, defaults, W, mros
 
 
-def run_graph_case(ctx, classes, defaults, W, mros, g, lines, impls, metas, with_submit=True):
+def classes_py(W):
+    return W.classes
+
+
+def run_graph_case(ctx, classes, defaults, W, mros, g, lines, impls, metas, with_submit=True, force_resubmit=None):
     impl = probe_impl(ctx)
     case = {"op": "graph", "classes": [{k: c[k] for k in ("name", "base", "parent", "args", "mro")} for c in classes], "defaults": defaults,
             "nodes": g["nodes"], "root": g["root"], "removed": g.get("removed", [])}
@@ -1367,6 +1401,25 @@ def run_graph_case(ctx, classes, defaults, W, mros, g, lines, impls, metas, with
                              f"{'through configuration values' if miss_top else 'only through a list/dict value'} misses a required value; "
                              f"registry holds {jobs} job(s)", case)
         ctx.count("submit_outcome", sub.split(":")[0])
+        # ---- monitor: the same incomplete sub-configuration inside a second, new task (the `_validated`
+        # flag of the first, failed validation must not hide it)
+        if sub == "rejected-validation" and force_resubmit is not False and not node_missing(g, classes, g["root"]) \
+                and (force_resubmit or (len(lines) % 3 == 0)):
+            nd = g["nodes"][g["root"]]
+            r3 = classes_py(W)[nd["cls"]]()
+            for a, v in zip(classes[nd["cls"]]["args"], nd["vals"]):
+                if v is not None:
+                    setattr(r3, a["name"], build(v, w2))
+            if nd["pre"]:
+                r3.add_pretasks(*[w2.objs[m] for m in nd["pre"]])
+            sub3, jobs3 = instant(ctx).submit(r3, init)
+            ctx.count("resubmit_outcome", sub3.split(":")[0])
+            out["resubmit"] = sub3.split(":")[0]
+            if sub3.startswith("accepted") or jobs3 != 0:
+                ctx.monitor_fail("resubmit-accepts-missing",
+                                 f"a task was rejected because node {miss_top[0]} misses a required value; a second, new task holding the same "
+                                 f"sub-configurations is accepted by submit (registry holds {jobs3} job(s)): the _validated flag set by the failed validation hides the gap",
+                                 dict(case, resubmit=True))
     lines.append(graph_line(impl, classes, g, mros))
     impls.append(out)
     metas.append({"miss_deep": bool(miss_deep), "miss_top": bool(miss_top), "cyclic": cyc, "case": case})
@@ -1382,34 +1435,29 @@ def run_graph_case(ctx, classes, defaults, W, mros, g, lines, impls, metas, with
 
 
 def compare_graphs(ctx, lines, impls, metas):
-    if not lines:
+    _QUEUE.extend(("graph", l, i, m) for l, i, m in zip(lines, impls, metas))
+
+
+def compare_graph(ctx, line, m, i, meta):
+    if m.get("missing_deep") != meta["miss_deep"]:
+        ctx.disagree(meta["case"], m.get("missing_deep"), meta["miss_deep"], "reachable-missing (model, all edges) differs from the python computation")
+    mv = {"validate": m["validate"], "again": m["again"], "flags": m["flags"]}
+    iv = {k: i[k] for k in ("validate", "again", "flags")}
+    if mv != iv:
+        ctx.disagree(meta["case"], mv, iv, "ConfigInformation.validate: model and implementation differ")
         return
-    try:
-        outs = common.run_driver("C15", lines)
-    except Exception as e:
-        ctx.disagree({"driver": "C15"}, None, None, f"model driver failed: {e}")
+    if "submit" not in i:
         return
-    for line, m, i, meta in zip(lines, outs, impls, metas):
-        ctx.traces_validated += 1
-        if m.get("missing_deep") != meta["miss_deep"]:
-            ctx.disagree(meta["case"], m.get("missing_deep"), meta["miss_deep"], "reachable-missing (model, all edges) differs from the python computation")
-        mv = {"validate": m["validate"], "again": m["again"], "flags": m["flags"]}
-        iv = {k: i[k] for k in ("validate", "again", "flags")}
-        if mv != iv:
-            ctx.disagree(meta["case"], mv, iv, "ConfigInformation.validate: model and implementation differ")
-            continue
-        if "submit" not in i:
-            continue
-        sub = i["submit"]
-        if m["submit"] == "ok":
-            fine = (sub == "accepted" and i["jobs"] == 1) or \
-                   (sub.startswith("rejected-other") and i["jobs"] == 0 and (meta["miss_deep"] or meta["cyclic"]))
-            if sub.startswith("rejected-other"):
-                ctx.count("accepted_by_validate_rejected_later", "missing-inside-container" if meta["miss_deep"] else "cyclic")
-        else:
-            fine = sub == "rejected-validation" and i["jobs"] == 0
-        if not fine:
-            ctx.disagree(meta["case"], {"submit": m["submit"], "jobs": m["jobs"]}, {"submit": sub, "jobs": i["jobs"]}, "submit: model and implementation differ")
+    sub = i["submit"]
+    if m["submit"] == "ok":
+        fine = (sub == "accepted" and i["jobs"] == 1) or \
+               (sub.startswith("rejected-other") and i["jobs"] == 0 and (meta["miss_deep"] or meta["cyclic"]))
+        if sub.startswith("rejected-other"):
+            ctx.count("accepted_by_validate_rejected_later", "missing-inside-container" if meta["miss_deep"] else "cyclic")
+    else:
+        fine = sub == "rejected-validation" and i["jobs"] == 0
+    if not fine:
+        ctx.disagree(meta["case"], {"submit": m["submit"], "jobs": m["jobs"]}, {"submit": sub, "jobs": i["jobs"]}, "submit: model and implementation differ")
 
 
 def run_graphs(ctx, rng, nlibs, per_lib, with_model=True):
@@ -1450,7 +1498,16 @@ def f11_case(meta=True, container="list"):
             "root": 0, "removed": [[1, 0, 1]]}
 
 
-CORPUS = [F10_CASE, N1_CASE, N2_CASE, f11_case(True, "list"), f11_case(False, "list"), f11_case(True, "dict")]
+def n3_case():
+    """Task(s: Param[Sub]) with Sub.x: Meta[int] missing, submitted twice (the second time inside a new task object)"""
+    c = f11_case(True, "list")
+    c["classes"][1]["args"][0]["ty"] = T("cfg", c=0)
+    c["nodes"][0]["vals"] = [{"k": "config", "cls": 0, "id": 1}]
+    c["resubmit"] = True
+    return c
+
+
+CORPUS = [F10_CASE, N1_CASE, N2_CASE, f11_case(True, "list"), f11_case(False, "list"), f11_case(True, "dict"), n3_case()]
 
 
 def run_case_list(ctx, cases, with_model=True):
@@ -1468,7 +1525,7 @@ def run_case_list(ctx, cases, with_model=True):
         classes, defaults, W, mros = make_lib(ctx, None, classes, c.get("defaults", {}))
         g = {"nodes": c["nodes"], "root": c["root"], "removed": [tuple(x) for x in c.get("removed", [])]}
         lines, impls, metas = [], [], []
-        run_graph_case(ctx, classes, defaults, W, mros, g, lines, impls, metas)
+        run_graph_case(ctx, classes, defaults, W, mros, g, lines, impls, metas, force_resubmit=c.get("resubmit", False))
         if with_model:
             compare_graphs(ctx, lines, impls, metas)
 
@@ -1505,10 +1562,12 @@ def correspond(ctx):
     run_decl_cases(ctx, rng, ctx.scale(40, 400))
     nlibs, per = ctx.scale((14, 18), (220, 22))
     run_graphs(ctx, rng, nlibs, per)
+    flush(ctx)
 
 
 def search(ctx):
     """implementation-only monitors over a larger stream (run when a proof or the correspondence broke)"""
+    del _QUEUE[:]
     t0 = time.time()
     budget = ctx.scale(40, 300)
     rng = random.Random(f"search-{ctx.seed}")
@@ -1533,13 +1592,14 @@ def replay(ctx, obj):
             cases.append({"kind": "set", "arg": c["argd"], "v": c["v"]})
         elif c.get("op") == "graph":
             cases.append({"kind": "graph", "classes": c["classes"], "defaults": c.get("defaults", {}), "nodes": c["nodes"], "root": c["root"],
-                          "removed": c.get("removed", [])})
+                          "removed": c.get("removed", []), "resubmit": c.get("resubmit", False)})
     for d in obj.get("disagreements", []):
         print("disagreement:", json.dumps(d)[:400])
     prove(ctx)
     probe_impl(ctx)
     if cases:
         run_case_list(ctx, cases)
+        flush(ctx)
     else:
         correspond(ctx)
     return common.verdict(ctx, search)
